@@ -178,12 +178,12 @@ Proof.
     destruct ecma; [discriminate|].
     destruct (ostep MainPass (p_o ps) (TNumbered n)) as [o2| | |] eqn:Eo; try discriminate. cbn [bind] in Hm.
     rewrite (Hmo _ eq_refl) in Hm.
+    destruct mco; [exfalso; apply (Hun eq_refl eq_refl)|]. cbn [andb] in Hm.
     destruct (is_slot t n) eqn:Hs; [|discriminate].
     destruct (n =? 0) eqn:E0; [discriminate|]. injection Hm as <- <-.
     apply Z.eqb_neq in E0. specialize (Hneg _ Hs).
     destruct (n <=? 0) eqn:E1; [apply Z.leb_le in E1; lia|].
     destruct (maxint32 <? n); [discriminate|].
-    destruct mco; [exfalso; apply (Hun eq_refl eq_refl)|].
     injection Hp as <- <-.
     destruct (note_slot_fields n (p_c ps)) as [Fa _].
     split; [|reflexivity]. repeat split; cbn [m_o m_ign m_autocap p_o p_ign p_c gopen consume_slot andb]; auto.
